@@ -3,6 +3,12 @@ package checks
 import (
 	"encoding/json"
 	"fmt"
+	"strings"
+
+	"github.com/syndtr/goleveldb/leveldb"
+	"verif/harness"
+	"verif/vsched"
+	"verif/vsync"
 
 	"github.com/syndtr/goleveldb/leveldb/storage"
 	"verif/explore"
@@ -75,11 +81,95 @@ func c09FaultDrivers() []concParams {
 	for nth := 1; nth <= 2; nth++ {
 		add(fmt.Sprintf("throttled-writers+table-create-fault#%d", nth), "throttle/bytewise", thr, [][]string{{"put:a", "put:b"}, {"tr:+a,+c"}, {"get:a"}}, f(vstor.KCreate, storage.TypeTable, nth, 3, vstor.ModeFail))
 	}
+	// a rotation whose journal creation fails hands its file number back while a table compaction
+	// (two level-0 tables are waiting when the window opens) takes numbers for its outputs
+	for nth := 1; nth <= 2; nth++ {
+		add(fmt.Sprintf("rotation+journal-create-fault#%d-vs-table-compaction", nth), "flushy/bytewise", []string{"put:a", "put:b"}, [][]string{{"put:c", "put:a"}, {"get:a"}}, f(vstor.KCreate, storage.TypeJournal, nth, 1, vstor.ModeFail))
+	}
 	// removed tables hand their file numbers back (evict option set) while writers and compactions
 	// take new ones
 	out = append(out, concParams{Name: "evict-writers-vs-compactrange", Cfg: "evict/bytewise", Pre: []string{"put:a", "put:b", "put:c"}, Clients: [][]string{{"put:a", "put:b"}, {"cr"}, {"get:a"}}, QB: 1, TB: 2})
 	add("compact+manifest-write-fault-vs-tr", "flushy/bytewise", []string{"put:a", "put:b"}, [][]string{{"cr"}, {"tr:+a,+b"}, {"put:c"}}, f(vstor.KWrite, storage.TypeManifest, 1, 1, vstor.ModeFail))
 	return out
+}
+
+// File-number allocator under all interleavings: every goroutine runs a short script over
+// {alloc, reuse the number just allocated, reuse an older number, mark}; oracle: everybody
+// returns (a retry loop that can never succeed is a livelock), numbers held at the end are
+// pairwise distinct and below the next number.
+type c09Alloc struct {
+	Name    string     `json:"name"`
+	Scripts [][]string `json:"scripts"`
+	Bound   int        `json:"bound"` // deviation bound (64 = all interleavings of the short scripts)
+}
+
+func c09AllocExec(p *c09Alloc, prefix []int) *explore.Exec {
+	var viol []string
+	r := vsched.Run(vsched.Options{Prefix: prefix, MaxSteps: 3000}, func() {
+		vs, err := leveldb.VerifNewSession(vstor.New(), harness.Config{Name: "flushy/bytewise"}.Options())
+		if err != nil {
+			viol = append(viol, "session: "+err.Error())
+			return
+		}
+		defer vs.Close()
+		held := make([][]int64, len(p.Scripts))
+		var wg vsync.WaitGroup
+		vsched.Arm()
+		for gi, sc := range p.Scripts {
+			gi, sc := gi, sc
+			wg.Add(1)
+			vsched.GoNamed(fmt.Sprintf("a%d", gi), func() {
+				defer wg.Done()
+				for _, op := range sc {
+					switch op {
+					case "alloc":
+						held[gi] = append(held[gi], vs.AllocNum())
+					case "reuse":
+						// give back the number allocated last by this goroutine
+						if n := len(held[gi]); n > 0 {
+							x := held[gi][n-1]
+							held[gi] = held[gi][:n-1]
+							vs.ReuseNum(x)
+						}
+					case "reuse-old":
+						// give back the oldest number this goroutine holds (usually not the newest overall)
+						if n := len(held[gi]); n > 0 {
+							x := held[gi][0]
+							held[gi] = held[gi][1:]
+							vs.ReuseNum(x)
+						}
+					case "mark":
+						vs.MarkNum(vs.NextNum() + 1)
+					}
+				}
+			})
+		}
+		wg.Wait()
+		vsched.Disarm()
+		seen := map[int64]int{}
+		next := vs.NextNum()
+		for gi, hs := range held {
+			for _, n := range hs {
+				if g, dup := seen[n]; dup {
+					viol = append(viol, fmt.Sprintf("file number %d is held by goroutines %d and %d at the same time", n, g, gi))
+				}
+				seen[n] = gi
+				if n >= next {
+					viol = append(viol, fmt.Sprintf("file number %d is in use but the allocator would hand out %d next", n, next))
+				}
+			}
+		}
+	})
+	x := &explore.Exec{Points: r.Points, Verdict: r.Verdict.String(), Diverged: r.Diverged, Steps: r.Steps, Viol: viol, PrunedAt: -1}
+	if r.Diverged != "" {
+		return x
+	}
+	if r.Verdict != vsched.Completed {
+		x.Viol = append(x.Viol, fmt.Sprintf("file-number allocator: execution ended with %s: %v", r.Verdict, r.PanicValue))
+		x.Blocked = r.Blocked
+	}
+	x.Outcome = r.Verdict.String()
+	return x
 }
 
 func init() {
@@ -93,7 +183,11 @@ func init() {
 			}
 			json.Unmarshal(task, &probe)
 			if probe.Scenario != "" {
-				return dfsWorker(map[string]func(json.RawMessage) explore.RunFunc{"conc": concScenario})(task)
+				return dfsWorker(map[string]func(json.RawMessage) explore.RunFunc{"conc": concScenario, "alloc": func(params json.RawMessage) explore.RunFunc {
+					var p c09Alloc
+					json.Unmarshal(params, &p)
+					return func(prefix []int) *explore.Exec { return c09AllocExec(&p, prefix) }
+				}})(task)
 			}
 			return faultWorker(task)
 		},
@@ -122,6 +216,31 @@ func init() {
 			runFaultCheck(c, "C09", cfgs, hist, quick, false, extra...)
 			runConcChecks(c, "C09", c09Drivers(), 2, 0)
 			runConcChecks(c, "C09", c09FaultDrivers(), 1, 0)
+			// the file-number allocator on its own (all interleavings: the scripts are a handful of
+			// atomic operations)
+			{
+				pool := explore.NewPool(0, "worker", "C09")
+				per := map[string]any{}
+				for _, a := range []c09Alloc{
+					{Name: "alloc-reuse-vs-alloc", Scripts: [][]string{{"alloc", "reuse"}, {"alloc"}}, Bound: 64},
+					{Name: "alloc-reuse-vs-alloc-reuse", Scripts: [][]string{{"alloc", "reuse", "alloc"}, {"alloc", "reuse"}}, Bound: 4},
+					{Name: "reuse-old-vs-alloc-vs-mark", Scripts: [][]string{{"alloc", "alloc", "reuse-old", "reuse"}, {"alloc"}, {"mark", "alloc"}}, Bound: 3},
+				} {
+					st := explore.RunDFS(c, pool, "alloc", a, a.Bound, 0)
+					c.Add("evaluations", st.Execs)
+					per[a.Name] = map[string]any{"scripts": a.Scripts, "bound": a.Bound, "executions": st.Execs, "exhaustive": !st.Capped, "max_choice_points": st.MaxPoints}
+					fmt.Printf("  file-numbers %-28s execs=%d capped=%v maxpoints=%d\n", a.Name, st.Execs, st.Capped, st.MaxPoints)
+					if st.Capped {
+						c.SetExhaustive(false)
+					}
+					for _, v := range st.Viols {
+						c.Report(&explore.Violation{Property: "C09", Sig: map[string]string{"check": "filenum", "driver": a.Name, "effect": strings.Join(v.Viol, "; "), "verdict": v.Verdict},
+							Detail: map[string]any{"task": explore.DFSTask{Scenario: "alloc", Params: explore.MustJSON(a), Prefix: v.Choices, MaxExecs: 1}, "violation": v}})
+					}
+				}
+				pool.Close()
+				c.Coverage["file_number_allocator"] = per
+			}
 			c.Coverage["rule"] = "(a) per history x single-fault plan (as C08) the history is followed by a probe suite whose every call must return; (b) DFS over schedules with deviation bounding of clients racing Close / SetReadOnly / transactions / CompactRange; (c) the same with one storage fault armed during the window (journal write, manifest sync x3, table create, table write, manifest write); verdict per execution from the scheduler: deadlock (nobody enabled, no timer), hang (virtual clock passes 1h with a client call outstanding), livelock (step budget); distinct_nontrivial = fault plans whose error surfaced + distinct concurrent histories"
 			c.Assume = []string{"virtual time: timers fire only when no goroutine is enabled; horizon one virtual hour", "bounded schedules (deviation bound per driver in per_driver)"}
 		},
